@@ -687,4 +687,7 @@ def run(cx, tier='quick'):
     rep.not_decided += ['stringify! of raw identifiers (excluded by the property)']
     from .binders import check_binder_injectivity
     check_binder_injectivity(cx, rep, ['::debug::'])
+    from .c13 import include_own_parsers as _iop
+    from ..facts import Facts as _Fp
+    _iop(cx, _Fp(cx), rep, ['::debug::'])
     return rep
